@@ -22,13 +22,14 @@ var scalarKinds = []string{"bool", "byte", "unsigned byte", "short", "unsigned s
 var keyKinds = []string{"bool", "byte", "unsigned byte", "short", "unsigned short", "int", "unsigned int", "long", "string"}
 
 type genCtx struct {
-	rt      *rapid.T
-	pid     int
-	allow   Allow
-	structs []string // refs "module.Name" usable so far (declared earlier => no forward refs)
-	enums   []string
-	enumDef map[string]*rc.EnumJ
-	curMod  string
+	rt       *rapid.T
+	pid      int
+	allow    Allow
+	structs  []string // refs "module.Name" usable so far (declared earlier => no forward refs)
+	enums    []string
+	enumDef  map[string]*rc.EnumJ
+	curMod   string
+	boundary []string // refs of boundary structs (preferred for interface parameters)
 }
 
 func (g *genCtx) pick(n int, label string) int { return rapid.IntRange(0, n-1).Draw(g.rt, label) }
@@ -47,6 +48,9 @@ func (g *genCtx) drawType(depth int, forKey bool, label string) *rc.TypeJ {
 	case c < 11 && len(g.enums) > 0:
 		return &rc.TypeJ{K: "enum", Ref: g.enums[g.pick(len(g.enums), label+".e")]}
 	case c < 14 && len(g.structs) > 0:
+		if len(g.boundary) > 0 && g.pick(3, label+".useb") == 0 {
+			return &rc.TypeJ{K: "struct", Ref: g.boundary[g.pick(len(g.boundary), label+".bst")]}
+		}
 		return &rc.TypeJ{K: "struct", Ref: g.structs[g.pick(len(g.structs), label+".st")]}
 	case c < 17:
 		if g.pick(4, label+".bytes") == 0 {
@@ -284,6 +288,37 @@ func (g *genCtx) drawModule(name string, label string) *Module {
 		if len(st.Fields) >= 2 && g.pick(4, label+".key") == 0 {
 			m.Keys = append(m.Keys, fmt.Sprintf("key[%s, %s, %s];", sname, st.Fields[0].Name, st.Fields[1].Name))
 		}
+	}
+	// a "boundary" struct: optional members just below the extended-tag boundary followed
+	// by members with tags 15, 16 and 255 (two-byte heads); declared last so that the
+	// interfaces below tend to use it
+	if g.pick(3, label+".boundary") > 0 {
+		sname := fmt.Sprintf("SB%s", name)
+		st := &rc.StructJ{Module: name, Name: sname}
+		tags := []int{rapid.IntRange(0, 12).Draw(g.rt, label+".btag0"), 13, 14, 15, 16, 255}
+		names := []string{"lo", "m13", "m14", "m15", "m16", "top"}
+		for i, tg := range tags {
+			if i > 0 && tg <= tags[i-1] {
+				continue
+			}
+			if g.pick(5, label+".bskip") == 0 && tg != 15 {
+				continue
+			}
+			f := &rc.FieldJ{Name: names[i], Tag: tg, Require: g.pick(4, label+".breq") == 0}
+			f.Type = g.drawType(1, false, label+".bt")
+			switch f.Type.K {
+			case "vector", "map", "struct", "array":
+			default:
+				if g.pick(2, label+".bdef") == 0 {
+					g.drawDefault(f, label+".bdv")
+				}
+			}
+			st.Fields = append(st.Fields, f)
+		}
+		m.Structs = append(m.Structs, st)
+		m.DeclOrder = append(m.DeclOrder, seq(len(st.Fields)))
+		g.structs = append(g.structs, name+"."+sname)
+		g.boundary = append(g.boundary, name+"."+sname)
 	}
 	ni := rapid.IntRange(0, 2).Draw(g.rt, label+".niface")
 	for i := 0; i < ni; i++ {
